@@ -309,8 +309,8 @@ def rule_k9(ctx):
                 res.bad(Finding("K9", f["id"], "%s does not name the constant" % variant,
                                 "the error carries the literal and the expected type but neither the party nor the identifier: two parties that supply the same wrong literal "
                                 "produce two identical errors and the caller cannot tell which constant is meant", sp))
-    if seen < 3:
-        raise AnchorMissing("K9: expected the MissingConstant / InvalidLiteralType sites of compile_with_constants (at least 3), found %d" % seen)
+    if not errs.get("MissingConstant") or not errs.get("InvalidLiteralType"):
+        raise AnchorMissing("K9: expected sites that build MissingConstant and InvalidLiteralType in compile_with_constants, found %d" % seen)
     return res
 
 
